@@ -122,6 +122,12 @@ func verifyFunction(p *Program, cs *Contracts, fc *FuncContract, fn *ssa.Functio
 		rep.Obls = append(rep.Obls, &Obligation{Name: name + "/cover/requires", Func: name, Kind: "cover", Label: "requires",
 			Prefix: x.requiresPrefix, Guard: "true", Goal: "true", Cover: true, Enc: enc, Src: "requires are satisfiable"})
 	}
+	if rep.Err == nil && len(x.retGuards) > 0 {
+		// vacuity guard behind the postconditions: what is assumed along the way
+		// (callee postconditions, invariants, hooks) must leave some return reachable
+		rep.Obls = append(rep.Obls, &Obligation{Name: name + "/cover/return", Func: name, Kind: "cover", Label: "return",
+			Prefix: len(enc.body), Guard: "true", Goal: or(x.retGuards...), Cover: true, Enc: enc, Src: "some return site is reachable"})
+	}
 	rep.Obls = append(rep.Obls, disciplineObligations(fn, name, fc, enc)...)
 	rep.Notes = enc.notes
 	for a := range enc.assumptionsUsed {
